@@ -828,7 +828,7 @@ def declare(r):
 
 def run(r, n_override=None, bias=None):
     declare(r)
-    n_rand = {"quick": 10000, "thorough": 250000}[r.tier] if n_override is None else n_override
+    n_rand = {"quick": 9000, "thorough": 200000}[r.tier] if n_override is None else n_override
     r.rule = ("per case: op in the 10 public operators (cell_stats x 6 statistics), 2..6 data layers + 0..2 unused "
               "variables, shape 1x1..5x6, dtypes f8/f4/i8/i4, values ties{0,1,2}/ints/dyadics/wide, NaN in 45% of "
               "float layers, data_vars None/subset/shuffled, ref anywhere in the dataset, integer refs in 1..n mostly, "
@@ -867,7 +867,7 @@ def run(r, n_override=None, bias=None):
                   rng=r.rng, meta=(k % 5 == 0), spell=True)
         if len(reqs) >= 4000:
             flush(r, reqs, pend)
-    n_edge = {"quick": 8000, "thorough": 100000}[r.tier] if n_override is None else n_override
+    n_edge = {"quick": 7000, "thorough": 80000}[r.tier] if n_override is None else n_override
     for k in range(n_edge):
         op = ALL_OPS[k % len(ALL_OPS)]
         case, info = gen_edge(r.rng, op=op, force_layout=bias)
